@@ -654,6 +654,24 @@ class Ctx:
                 self.fsolver.add(clause)
         return ob
 
+    def probe(self, clause, timeout_ms=3000):
+        """quick attempt to prove pc => clause (used to choose between contract variants); False also on unknown.
+        Nothing is recorded: a failed probe is not an obligation."""
+        clause = tob(clause)
+        s = self.solver
+        s.push()
+        try:
+            s.set("timeout", timeout_ms)
+            s.add(z3.Not(clause))
+            r = s.check()
+        finally:
+            s.pop()
+            s.set("timeout", FEAS_TIMEOUT_MS)
+        if r == z3.unsat:
+            self.solver.add(clause)
+            return True
+        return False
+
     def lemma_nra(self, name, formula, detail=""):
         """validity of a closed, quantifier-free-after-skolemisation statement of pure polynomial real arithmetic,
         decided by z3's nlsat on a fresh solver (independent of the path condition).  Returns the Obligation."""
